@@ -8,6 +8,7 @@ import (
 	"math/rand"
 	"net/http"
 	"net/http/httptest"
+	"reflect"
 	"sort"
 	"strings"
 	"time"
@@ -66,7 +67,40 @@ func entName(ty int) string {
 
 var namePool = []string{"", "plain", "ünï", "q\"uote", "<&>", "new\nline"}
 
+// mkE1/mkE2/mkE3: THE value with index v (0 = the zero value); every write of value v, through the
+// helpers or as a raw document (checklib/domains/state.py doc_for), writes exactly this entity, so the
+// dump can tell whether a collection holds the value that was last written or a mixture
+func mkE2(v int) E2 {
+	if v == 0 {
+		return E2{}
+	}
+	if v >= 1000 { // written as the id-only type E4
+		return E2{ID: v}
+	}
+	e := E2{ID: v}
+	if v%5 != 0 {
+		e.M = map[string]int{fmt.Sprintf("k%d", v%3): v}
+	}
+	return e
+}
+
+func mkE3(v int) E3 {
+	if v == 0 {
+		return E3{}
+	}
+	if v >= 1000 { // written as the id-only type E4
+		return E3{ID: v}
+	}
+	return E3{ID: v, S: namePool[v%len(namePool)]}
+}
+
 func mkE1(v int) E1 {
+	if v == 0 {
+		return E1{}
+	}
+	if v >= 1000 { // written as the id-only type E4
+		return E1{ID: v}
+	}
 	e := E1{ID: v, Name: namePool[v%len(namePool)], F: float64(v) * 0.25}
 	if v%3 == 0 {
 		e.Tags = []string{"t", fmt.Sprint(v)}
@@ -144,14 +178,20 @@ func keyCode(s string) int {
 	return 999
 }
 
-func dumpColl[T any](name string, all map[string]T, id func(T) int) string {
+func dumpColl[T any](name string, all map[string]T, id func(T) int, canon func(int) T) string {
 	type kv struct {
 		k, v int
 		raw  string
+		mix  string
 	}
 	var l []kv
 	for ck, e := range all {
-		l = append(l, kv{keyCode(strings.TrimPrefix(ck, name+"/")), id(e), ck})
+		mix := ""
+		if !reflect.DeepEqual(e, canon(id(e))) {
+			b, _ := json.Marshal(e)
+			mix = "!NOT-THE-WRITTEN-VALUE:" + string(b)
+		}
+		l = append(l, kv{keyCode(strings.TrimPrefix(ck, name+"/")), id(e), ck, mix})
 	}
 	sort.Slice(l, func(i, j int) bool {
 		if l[i].k != l[j].k {
@@ -161,7 +201,7 @@ func dumpColl[T any](name string, all map[string]T, id func(T) int) string {
 	})
 	parts := make([]string, len(l))
 	for i, p := range l {
-		parts[i] = fmt.Sprintf("%d=%d", p.k, p.v)
+		parts[i] = fmt.Sprintf("%d=%d%s", p.k, p.v, p.mix)
 	}
 	return "{" + strings.Join(parts, ",") + "}"
 }
@@ -179,11 +219,11 @@ func (sc *stateCase) dump() string {
 	for _, ty := range sc.regs {
 		switch ty {
 		case 1:
-			parts = append(parts, "1:"+dumpColl(entName(1), sc.c1.All(), func(e E1) int { return e.ID }))
+			parts = append(parts, "1:"+dumpColl(entName(1), sc.c1.All(), func(e E1) int { return e.ID }, mkE1))
 		case 2:
-			parts = append(parts, "2:"+dumpColl(entName(2), sc.c2.All(), func(e E2) int { return e.ID }))
+			parts = append(parts, "2:"+dumpColl(entName(2), sc.c2.All(), func(e E2) int { return e.ID }, mkE2))
 		case 3:
-			parts = append(parts, "3:"+dumpColl(entName(3), sc.c3.All(), func(e E3) int { return e.ID }))
+			parts = append(parts, "3:"+dumpColl(entName(3), sc.c3.All(), func(e E3) int { return e.ID }, mkE3))
 		}
 	}
 	cbs := "-"
@@ -292,15 +332,15 @@ func stateDomain(lines []string) []string {
 				}
 			case 2:
 				if ins {
-					sc.publishChange(state.Insert(key, E2{ID: v, M: map[string]int{"a": v}}, o...))
+					sc.publishChange(state.Insert(key, mkE2(v), o...))
 				} else {
-					sc.publishChange(state.Update(key, E2{ID: v, M: nil}, o...))
+					sc.publishChange(state.Update(key, mkE2(v), o...))
 				}
 			case 3:
 				if ins {
-					sc.publishChange(state.Insert(key, E3{ID: v, S: namePool[v%len(namePool)]}, o...))
+					sc.publishChange(state.Insert(key, mkE3(v), o...))
 				} else {
-					sc.publishChange(state.Update(key, E3{ID: v}, o...))
+					sc.publishChange(state.Update(key, mkE3(v), o...))
 				}
 			case 5: // undecodable value for the entity type named by et=
 				sc.publishChange(state.Insert(key, E5{ID: "x"}, o...))
@@ -314,9 +354,9 @@ func stateDomain(lines []string) []string {
 			case 1:
 				sc.publishChange(state.UpdateWithOldValue(key, mkE1(v), mkE1(old), o...))
 			case 2:
-				sc.publishChange(state.UpdateWithOldValue(key, E2{ID: v}, E2{ID: old}, o...))
+				sc.publishChange(state.UpdateWithOldValue(key, mkE2(v), mkE2(old), o...))
 			default:
-				sc.publishChange(state.UpdateWithOldValue(key, E3{ID: v}, E3{ID: old}, o...))
+				sc.publishChange(state.UpdateWithOldValue(key, mkE3(v), mkE3(old), o...))
 			}
 		case "del":
 			ty, key := arg(1), keyPool[arg(2)]
@@ -337,9 +377,9 @@ func stateDomain(lines []string) []string {
 			case 1:
 				sc.publishChange(state.DeleteWithOldValue(key, mkE1(old)))
 			case 2:
-				sc.publishChange(state.DeleteWithOldValue(key, E2{ID: old}))
+				sc.publishChange(state.DeleteWithOldValue(key, mkE2(old)))
 			default:
-				sc.publishChange(state.DeleteWithOldValue(key, E3{ID: old}))
+				sc.publishChange(state.DeleteWithOldValue(key, mkE3(old)))
 			}
 		case "ctl":
 			off := ""
